@@ -253,7 +253,7 @@ class Check:
                     "axioms reported by Print Assumptions this run: %s" % (ax if ax else "none (all theorems closed under the global context)"),
                     "extraction with ExtrOcamlBasic only, OCaml 4.13.1, ocaml/driver.ml (parser, float ArithOps, printers)",
                     "Python harness (scripted protocols, recorders, canonicalisation, diff), CPython, glibc libm",
-                    "assumed: non-NaN IEEE doubles satisfy OrderLaws; heapq returns a minimum under Event.__lt__",
+                    "assumed: non-NaN IEEE doubles satisfy OrderLaws; the C accelerator of heapq computes what Lib/heapq.py says (its transcription coq/Heap.v is proved to keep the multiset and the heap condition and to pop the least event under Event.__lt__, and is compared layout-exactly with CPython on every run of C02/C03)",
                 ],
                 "theorems": self.proof["theorems"] if self.proof else [],
                 "axioms_per_theorem": self.proof["axioms"] if self.proof else {},
